@@ -11,7 +11,7 @@ first = {  # verdict of the check as it stood when the seed arrived (before any 
  'C07-b': 'missed', 'C12-b': 'missed', 'C13-b': 'missed', 'C29-b': 'missed',
  'C04-b': 'missed', 'C05-b': 'missed', 'C23-b': 'missed', 'C27-b': 'missed',
  'C02-c': 'missed', 'C24-c': 'missed', 'C25-c': 'missed', 'C28-c': 'missed', 'C30-c': 'missed', 'C01-c': 'missed', 'C03-c': 'missed',
- 'C08-c': 'missed',
+ 'C08-c': 'missed', 'C23-c': 'missed', 'C04-c': 'missed', 'C29-c': 'missed (still missed)', 'C12-c': 'missed (still missed)',
 }
 rows = []
 for seed in sorted(os.listdir(f'{root}/seeded')):
